@@ -575,7 +575,7 @@ def interpret_encode(case, ctx):
 
 def parts(tier):
     return [
-        hyp_part("feed", s_feed, interpret_feed, tier, quick=75, thorough=1500, quick_shards=8, thorough_shards=16),
+        hyp_part("feed", s_feed, interpret_feed, tier, quick=75, thorough=3500, quick_shards=8, thorough_shards=16),
         EnumPart("flips", _flip_chunks(tier), _flip_cases, interpret_feed),
-        hyp_part("encode", s_encode, interpret_encode, tier, quick=40, thorough=600, quick_shards=4, thorough_shards=8),
+        hyp_part("encode", s_encode, interpret_encode, tier, quick=40, thorough=1200, quick_shards=4, thorough_shards=8),
     ]
